@@ -15,6 +15,7 @@ import (
 	"time"
 
 	"github.com/attestantio/go-eth2-client/api"
+	apiv1 "github.com/attestantio/go-eth2-client/api/v1"
 	"github.com/attestantio/go-eth2-client/spec/phase0"
 	"github.com/attestantio/vouch/services/attester"
 	attstd "github.com/attestantio/vouch/services/attester/standard"
@@ -50,6 +51,7 @@ type History struct {
 	SlotsPerEpoch uint64 `json:"slots_per_epoch"`
 	Dirk          bool   `json:"dirk_like_accounts"`
 	NVal          int    `json:"validators"`
+	Merge         bool   `json:"duties_built_by_MergeDuties"`
 	Runs          []Run  `json:"runs"`
 }
 
@@ -287,7 +289,7 @@ func (s *sim) describe(a *phase0.Attestation) Att {
 
 // Generate builds a history from the PRNG.
 func Generate(r *rand.Rand) *History {
-	h := &History{SlotsPerEpoch: uint64([]int{4, 8, 32}[r.Intn(3)]), Dirk: r.Intn(2) == 0, NVal: 2 + r.Intn(7)}
+	h := &History{SlotsPerEpoch: uint64([]int{4, 8, 32}[r.Intn(3)]), Dirk: r.Intn(2) == 0, NVal: 2 + r.Intn(7), Merge: r.Intn(2) == 0}
 	nRuns := 2 + r.Intn(9)
 	epoch := uint64(r.Intn(3))
 	dataKinds := []string{"ok", "ok", "ok", "ok", "ok", "error", "wrong-slot", "target-above", "target-below", "source-above-target"}
@@ -420,7 +422,38 @@ func Execute(h *History, r *rand.Rand) (*Trace, error) {
 		for c, n := range run.Sizes {
 			sizes[phase0.CommitteeIndex(c)] = n
 		}
-		duty, derr := attester.NewDuty(ctx, phase0.Slot(run.Slot), 4, vis, cis, pos, sizes)
+		var duty *attester.Duty
+		var derr error
+		if h.Merge {
+			// as the controller does: the node's per-validator duties of several slots, merged per slot
+			var list []*apiv1.AttesterDuty
+			addRun := func(rn Run) {
+				for _, e := range rn.Entries {
+					list = append(list, &apiv1.AttesterDuty{Slot: phase0.Slot(rn.Slot), ValidatorIndex: phase0.ValidatorIndex(e.Validator), CommitteeIndex: phase0.CommitteeIndex(e.Committee),
+						CommitteeLength: rn.Sizes[e.Committee], CommitteesAtSlot: 4, ValidatorCommitteeIndex: e.Position})
+				}
+			}
+			addRun(run)
+			seenSlot := map[uint64]bool{run.Slot: true}
+			for k, other := range h.Runs {
+				if k != i && !seenSlot[other.Slot] && other.Slot/h.SlotsPerEpoch == run.Slot/h.SlotsPerEpoch {
+					seenSlot[other.Slot] = true
+					addRun(other)
+				}
+			}
+			merged, merr := attester.MergeDuties(ctx, list)
+			derr = merr
+			if merr == nil {
+				derr = errors.New("slot missing from merged duties")
+				for _, d := range merged {
+					if uint64(d.Slot()) == run.Slot {
+						duty, derr = d, nil
+					}
+				}
+			}
+		} else {
+			duty, derr = attester.NewDuty(ctx, phase0.Slot(run.Slot), 4, vis, cis, pos, sizes)
+		}
 		if derr != nil {
 			s.trace.RunErr[i] = "duty: " + derr.Error()
 			return
@@ -654,7 +687,106 @@ func Fingerprint(h *History, tr *Trace) string {
 		ks = append(ks, k)
 	}
 	sort.Strings(ks)
-	parts = append(parts, fmt.Sprintf("runs:%d", len(h.Runs)), "data:"+strings.Join(ks, ","), fmt.Sprintf("repeat:%v skipped:%v overlap:%v dirk:%v", sameEpochRepeat, skipped, overlap, h.Dirk),
+	parts = append(parts, fmt.Sprintf("runs:%d", len(h.Runs)), "data:"+strings.Join(ks, ","), fmt.Sprintf("repeat:%v skipped:%v overlap:%v dirk:%v merge:%v", sameEpochRepeat, skipped, overlap, h.Dirk, h.Merge),
 		fmt.Sprintf("signs:%d subs:%d", len(tr.Signs), len(tr.Submits)))
 	return strings.Join(parts, "|")
 }
+
+
+// Storm: for each of a series of fresh epochs, several runs over the same validators are released at the same
+// instant, so that they race to be the first to touch the epoch. Signing is counted, not carried out.
+func Storm(r *rand.Rand, epochs int) (findings []Finding, requests int) {
+	ctx := context.Background()
+	spe := uint64(8)
+	clock := harness.NewVClock(12*time.Second, spe)
+	specP := harness.NewSpec(spe, nil)
+	st := &stormSim{count: map[[2]uint64]int{}, spe: spe}
+	for i := 0; i < 8; i++ {
+		st.accts = append(st.accts, harness.NewAcct(harness.KindPlain, "W", fmt.Sprintf("s%d", i), 300+i, phase0.ValidatorIndex(100+i), nil))
+	}
+	att, err := attstd.New(ctx, attstd.WithLogLevel(zerolog.Disabled), attstd.WithProcessConcurrency(4), attstd.WithChainTime(clock), attstd.WithSpecProvider(specP),
+		attstd.WithAttestationDataProvider(st), attstd.WithAttestationsSubmitter(st), attstd.WithMonitor(nullmetrics.New()),
+		attstd.WithValidatingAccountsProvider(st), attstd.WithBeaconAttestationsSigner(st))
+	if err != nil {
+		return []Finding{{"C01", "storm-setup", err.Error()}}, 0
+	}
+	for e := uint64(1); e <= uint64(epochs); e++ {
+		g := 2 + r.Intn(3)
+		gate := make(chan struct{})
+		var wg sync.WaitGroup
+		for k := 0; k < g; k++ {
+			var vis []phase0.ValidatorIndex
+			var cis []phase0.CommitteeIndex
+			var pos []uint64
+			for i := range st.accts {
+				vis = append(vis, phase0.ValidatorIndex(100+i))
+				cis = append(cis, 0)
+				pos = append(pos, uint64(i))
+			}
+			duty, _ := attester.NewDuty(ctx, phase0.Slot(e*spe+uint64(k)), 4, vis, cis, pos, map[phase0.CommitteeIndex]uint64{0: 64})
+			wg.Add(1)
+			go func() {
+				defer wg.Done()
+				<-gate
+				_, _ = att.Attest(ctx, duty)
+			}()
+		}
+		close(gate)
+		wg.Wait()
+	}
+	st.mu.Lock()
+	defer st.mu.Unlock()
+	for k, n := range st.count {
+		if n > 1 {
+			findings = append(findings, Finding{"C01", "second-signature-request-in-epoch:concurrent-first-touch", fmt.Sprintf("validator %d was put forward for an attestation signature %d times in epoch %d by runs released together", k[0], n, k[1])})
+			break
+		}
+	}
+	return findings, st.requests
+}
+
+type stormSim struct {
+	mu       sync.Mutex
+	count    map[[2]uint64]int
+	requests int
+	accts    []harness.Acct
+	spe      uint64
+}
+
+func (s *stormSim) AttestationData(_ context.Context, opts *api.AttestationDataOpts) (*api.Response[*phase0.AttestationData], error) {
+	e := uint64(opts.Slot) / s.spe
+	return &api.Response[*phase0.AttestationData]{Data: &phase0.AttestationData{Slot: opts.Slot, Index: opts.CommitteeIndex,
+		Source: &phase0.Checkpoint{Epoch: phase0.Epoch(e - 1)}, Target: &phase0.Checkpoint{Epoch: phase0.Epoch(e)}}, Metadata: map[string]any{}}, nil
+}
+func (s *stormSim) ValidatingAccountsForEpoch(context.Context, phase0.Epoch) (map[phase0.ValidatorIndex]e2wtypes.Account, error) {
+	return nil, errors.New("not used")
+}
+func (s *stormSim) ValidatingAccountsForEpochByIndex(_ context.Context, _ phase0.Epoch, indices []phase0.ValidatorIndex) (map[phase0.ValidatorIndex]e2wtypes.Account, error) {
+	out := map[phase0.ValidatorIndex]e2wtypes.Account{}
+	for _, idx := range indices {
+		out[idx] = s.accts[int(idx)-100]
+	}
+	return out, nil
+}
+func (s *stormSim) SyncCommitteeAccountsForEpoch(context.Context, phase0.Epoch) (map[phase0.ValidatorIndex]e2wtypes.Account, error) {
+	return nil, errors.New("not used")
+}
+func (s *stormSim) SyncCommitteeAccountsForEpochByIndex(context.Context, phase0.Epoch, []phase0.ValidatorIndex) (map[phase0.ValidatorIndex]e2wtypes.Account, error) {
+	return nil, errors.New("not used")
+}
+func (s *stormSim) SignBeaconAttestations(_ context.Context, accounts []e2wtypes.Account, slot phase0.Slot, _ []phase0.CommitteeIndex,
+	_ phase0.Root, _ phase0.Epoch, _ phase0.Root, _ phase0.Epoch, _ phase0.Root,
+) ([]phase0.BLSSignature, error) {
+	s.mu.Lock()
+	s.requests++
+	for _, a := range accounts {
+		s.count[[2]uint64{uint64(harness.AcctIndex(a.(harness.Acct))), uint64(slot) / s.spe}]++
+	}
+	s.mu.Unlock()
+	out := make([]phase0.BLSSignature, len(accounts))
+	for i := range out {
+		out[i][0] = 1
+	}
+	return out, nil
+}
+func (s *stormSim) SubmitAttestations(context.Context, []*phase0.Attestation) error { return nil }
